@@ -470,6 +470,42 @@ def run_check(tier, seed):
             roundtrip(run, t, dict(unicode=uni, highlight=False, line_length=None), 'same-name nested binders', ':nested-binders')
         run.count(('nested-binders', g_tm(t)), nontrivial=True)
 
+    # ---- binders whose variable has a compound type (list, set, function) and is constrained by infix operators only: no
+    #      constant or free variable in the body can carry a type annotation, so the binder itself has to show the type
+    FA = TFun(A, A)
+    comp_ops = {LA: [('append', LA)], SA: [('inter', SA), ('union', SA)], SN: [('inter', SN), ('union', SN)], FA: [('comp_fun', FA)]}
+    for i in range(40 if tier == 'quick' else 400):
+        T = r.choice([LA, SA, SN, FA, LA, SA])
+        k = r.choice([1, 2, 2, 3])
+
+        def optree(d):
+            if d <= 0 or r.random() < 0.35:
+                return Bound(r.randrange(k))
+            nm_, TT = r.choice(comp_ops[T])
+            return C(nm_, TT, TT, TT)(optree(d - 1), optree(d - 1))
+        lhs, rhs = optree(2), optree(2)
+        rel = C('equals', T, T, B) if (T not in (SA, SN) or r.random() < 0.6) else C('subset', T, T, B)
+        body = rel(lhs, rhs)
+        if r.random() < 0.4:
+            body = C('implies', B, B, B)(C('equals', T, T, B)(Bound(0), Bound(k - 1)), body)
+        t = body
+        kinds_ = [r.choice(['all', 'all', 'exists', 'lam']) for _ in range(k)]
+        if 'lam' in kinds_[:-1]:
+            kinds_ = ['lam'] * k        # an abstraction under a quantifier is not a proposition
+        for j in range(k):
+            lam = Abs(['xs', 'ys', 'zs'][k - 1 - j] if T == LA else ['A', 'B', 'C'][k - 1 - j] if T in (SA, SN) else ['f', 'g', 'h'][k - 1 - j], T, t)
+            kd = kinds_[k - 1 - j]
+            t = lam if kd == 'lam' else Const(kd, TFun(TFun(T, B), B))(lam)
+        try:
+            t.checked_get_type()
+            theory.thy.check_term(t)
+        except Exception as e:
+            run.stat('gen-operator-binders:' + type(e).__name__)
+            continue
+        for uni in (False, True):
+            roundtrip(run, t, dict(unicode=uni, highlight=False, line_length=None), 'binder of compound type under operators only', ':operator-binders')
+        run.count(('operator-binders', g_tm(t)), nontrivial=True)
+
     codes = coq_eval_nats(run.wd, IMPORTS, exprs, defs=table_defs, tag='ast', shard=150)
     nd = nm = 0
     for (t, s), code in zip(meta, codes):
